@@ -431,6 +431,13 @@ def call_macro_case(rnd):
         a = macro_arg(rnd)
         lead = rnd.choice(["", "", " ", "  "]) if i else rnd.choice(["", "", " "])
         trail = rnd.choice(["", "", " "])
+        r = rnd.random()
+        if r < 0.06:
+            # a comment at the top level of the call runs to the end of its line (commas in it separate nothing);
+            # an argument may consist of nothing but a comment: it is text like any other
+            a, trail = rnd.choice(["# only a comment", "#", "# c (", "x  # trailing"]), "\n" + rnd.choice(["", " ", "    "])
+        elif r < 0.1:
+            a = a + rnd.choice(["\xa0", "\u200b", " \x0b"]) + "z"  # characters that are no token at all are text too
         args.append(lead + a + trail)
     trailing = rnd.choice(["", "", ",", ", ", " ,"])
     if trailing == " ,":
